@@ -144,12 +144,17 @@ def _writer_names(save, fstrings=None):
     return None
 
 
+_REPO: list = [None]  # set by run(): module look-up for names of inlined code
+
+
 def _const_str(fi, e):
     """A constant string, directly or through a module-level name."""
     if isinstance(e, ast.Constant) and isinstance(e.value, str):
         return e.value
     if isinstance(e, ast.Name):
-        for st in fi.module.tree.body:
+        # code inlined from another module resolves its globals there
+        home = _REPO[0].modules.get(getattr(e, "_origin_mod", None) or "") if _REPO[0] is not None else None
+        for st in (home or fi.module).tree.body:
             if isinstance(st, ast.Assign) and any(isinstance(t, ast.Name) and t.id == e.id for t in st.targets):
                 return _const_str(fi, st.value)
             if isinstance(st, ast.AnnAssign) and isinstance(st.target, ast.Name) and st.target.id == e.id and st.value is not None:
@@ -293,7 +298,9 @@ def _num_const(fi, e):
     if isinstance(e, ast.Constant) and isinstance(e.value, (int, float)) and not isinstance(e.value, bool):
         return e.value
     if isinstance(e, ast.Name):
-        v = getattr(fi.module, "assigns", {}).get(e.id)
+        # code inlined from another module resolves its globals there
+        home = _REPO[0].modules.get(getattr(e, "_origin_mod", None) or "") if _REPO[0] is not None else None
+        v = getattr(home or fi.module, "assigns", {}).get(e.id)
         if v is not None:
             return _num_const(fi, v)
     return None
@@ -321,6 +328,44 @@ def _count_with_step(fi, it):
         return False
     k = _num_const(fi, c.args[1])
     return k is not None and k != 0
+
+
+def _legend_from_same_table(ctx, pms_raw, sv) -> bool:
+    """The legend is built after the bars, outside the plotting loop: in the
+    flattened public plot function the bar's colour and the patch's colour
+    are the same expression of the job id (`colors[<op>.job_id]` there,
+    `colors[<j>]` for j over the plotted job ids here)."""
+    import re
+
+    tops = [f for f in ctx.repo.all_functions() if f.module is pms_raw.module and f.cls is None and not f.name.startswith("_") and not isinstance(f.node, ast.Lambda)]
+    for top in tops:
+        F = ctx.norm.flat(top, depth=4)
+        bars = [n for n in own_nodes(F.node) if isinstance(n, ast.Call) and isinstance(n.func, ast.Attribute) and n.func.attr == "broken_barh"]
+        pats = [n for n in own_nodes(F.node) if isinstance(n, ast.Call) and ast.unparse(n.func).split(".")[-1] == "Patch"]
+        if len(bars) != 1 or len(pats) != 1:
+            continue
+        bc = next((k.value for k in bars[0].keywords if k.arg in ("facecolors", "facecolor", "color")), None)
+        pc = next((k.value for k in pats[0].keywords if k.arg in ("facecolor", "color")), None)
+        if bc is None or pc is None:
+            continue
+        # the variable the patch is built for: the target of the enclosing for / comprehension
+        par = F.module.parents
+        cur, var = par.get(pats[0]), None
+        while cur is not None and cur is not F.node:
+            if isinstance(cur, (ast.ListComp, ast.GeneratorExp)) and len(cur.generators) == 1 and isinstance(cur.generators[0].target, ast.Name):
+                var = cur.generators[0].target.id
+                break
+            if isinstance(cur, ast.For) and isinstance(cur.target, ast.Name):
+                var = cur.target.id
+                break
+            cur = par.get(cur)
+        if var is None:
+            continue
+        bt = re.sub(r"(?<![A-Za-z0-9_.])[A-Za-z_][A-Za-z0-9_]*\.job_id(?![A-Za-z0-9_])", "$J", ast.unparse(bc))
+        pt = re.sub(r"(?<![A-Za-z0-9_.])" + re.escape(var) + r"(?![A-Za-z0-9_])", "$J", ast.unparse(pc))
+        if "$J" in bt and bt == pt:
+            return True
+    return False
 
 
 def _bar_in_flat(ctx, pms_raw):
@@ -413,8 +458,90 @@ def _legend_labels(ctx):
     chk.analysed["legend_label_lookups"] = n_calls
 
 
+def _record_fields(ctx, fi, call):
+    """{field: expression} for `Record(...)` with Record a NamedTuple /
+    dataclass-like class of the package (annotated fields, no __init__)."""
+    if not isinstance(call, ast.Call):
+        return None
+    q = ctx.repo.resolve(getattr(call.func, "_origin_mod", None) or fi.module.name, dotted(call.func) or "")
+    cls = ctx.repo.classes.get(q or "")
+    if cls is None or cls.methods.get("__init__") is not None:
+        return None
+    fields = [st.target.id for st in cls.node.body if isinstance(st, ast.AnnAssign) and isinstance(st.target, ast.Name)]
+    if not fields or any(isinstance(a, ast.Starred) for a in call.args) or any(k.arg is None for k in call.keywords):
+        return None
+    out = dict(zip(fields, call.args))
+    for k in call.keywords:
+        if k.arg in fields:
+            out[k.arg] = k.value
+    return out
+
+
+def _history_read_live(ctx, gc):
+    """R20.d, second clause: create_gif / create_video animate the history the
+    observer holds WHEN THEY ARE CALLED.  HistoryObserver.reset rebinds its list,
+    so a list captured by the constructor is the first episode's for ever."""
+    chk = ctx.chk
+    init = gc.methods.get("__init__")
+    for mname, callee in (("create_gif", "create_gantt_chart_gif"), ("create_video", "create_gantt_chart_video")):
+        m = gc.methods.get(mname)
+        if m is None:
+            raise AnalysisError(f"GanttChartCreator.{mname} vanished")
+        f = ctx.norm.flat(m, depth=2)
+        calls = [n for n in own_nodes(f.node) if isinstance(n, ast.Call) and (dotted(n.func) or "").split(".")[-1] == callee]
+        if len(calls) != 1:
+            raise AnalysisError(f"GanttChartCreator.{mname}: the call of {callee} was not found exactly once")
+        c = calls[0]
+        arg, captured = None, None
+        for k in c.keywords:
+            if k.arg == "schedule_history":
+                arg = k.value
+            elif k.arg is None and isinstance(ctx.norm.xexpr(f, k.value), ast.Dict):
+                # **<dict display> (possibly returned by a one-expression helper)
+                dsp = ctx.norm.xexpr(f, k.value)
+                for kk, vv in zip(dsp.keys, dsp.values):
+                    if isinstance(kk, ast.Constant) and kk.value == "schedule_history":
+                        arg = vv
+            elif k.arg is None and isinstance(k.value, ast.Call) and isinstance(k.value.func, ast.Attribute) and k.value.func.attr == "_asdict" and not k.value.args:
+                # **<record>._asdict(): the record built here (a property / local) or stored by the constructor
+                rec = ctx.norm.xexpr(f, k.value.func.value)
+                flds = _record_fields(ctx, f, rec)
+                if flds is None and isinstance(rec, ast.Attribute) and ast.unparse(rec.value) == "self" and init is not None:
+                    fin = ctx.norm.flat(init, depth=2)
+                    for st in own_nodes(fin.node):
+                        if isinstance(st, ast.Assign) and any(isinstance(t, ast.Attribute) and t.attr == rec.attr and ast.unparse(t.value) == "self" for t in st.targets):
+                            flds = _record_fields(ctx, fin, st.value)
+                            if flds is not None and "schedule_history" in flds:
+                                captured = (rec.attr, st)
+                if flds is not None and "schedule_history" in flds:
+                    arg = flds["schedule_history"]
+        if arg is None:
+            raise AnalysisError(f"GanttChartCreator.{mname}: the schedule_history argument of {callee} was not found")
+        txt = ast.unparse(arg) if captured else ctx.norm.xtext(f, arg)
+        if captured is None and isinstance(arg, ast.Attribute) and ast.unparse(arg.value) == "self" and txt == ast.unparse(arg) and init is not None:
+            # a plain attribute: where does the constructor get it from?
+            fin = ctx.norm.flat(init, depth=2)
+            for st in own_nodes(fin.node):
+                if isinstance(st, ast.Assign) and any(isinstance(t, ast.Attribute) and t.attr == arg.attr and ast.unparse(t.value) == "self" for t in st.targets):
+                    if ctx.norm.xtext(fin, st.value).endswith("history_observer.history") or ctx.norm.xtext(fin, st.value).endswith(".history"):
+                        captured = (arg.attr, st)
+        if captured is not None:
+            chk.violation(
+                "R20.d", m, c,
+                f"{mname} animates `self.{captured[0]}`, which the constructor filled from the history observer's list once: "
+                "HistoryObserver.reset rebinds that list, so after dispatcher.reset() the frames are those of the first episode, "
+                "not the first k operations of the recorded history",
+                loc=f.loc(c),
+            )
+        elif txt == "self.history_observer.history":
+            chk.ok("R20.d", m.qualname, f.loc(c), "animates the history the observer holds at call time")
+        else:
+            raise AnalysisError(f"GanttChartCreator.{mname}: schedule_history is `{txt[:60]}`, not the observer's history read at call time; not decided")
+
+
 def run(ctx):
     chk, repo = ctx.chk, ctx.repo
+    _REPO[0] = repo
     from .common import check_loop_variable_leaks
 
     check_loop_variable_leaks(ctx, "R20.g", ("job_shop_lib.visualization",), "the visualisation")
@@ -662,7 +789,11 @@ def run(ctx):
                     chk.violation("R20.b", pms, c, f"the bar colour `{ct}` does not depend on the operation's job", loc=pms.loc(c))
                 # legend patch uses the same colour variable, keyed by job id
                 patches = [n for n in ast.walk(fors[1]) if isinstance(n, ast.Call) and ast.unparse(n.func) == "Patch"]
-                if not patches or not any(
+                if not patches and _legend_from_same_table(ctx, pms_raw, sv):
+                    patches = None
+                if patches is None:
+                    pass
+                elif not patches or not any(
                     k.arg == "facecolor" and (ast.unparse(k.value) == args[3] or ctx.norm.xtext(pms, k.value) == ct) for k in patches[0].keywords
                 ):
                     ok = False
@@ -962,8 +1093,13 @@ def run(ctx):
         if p.outcome != "return":
             continue
         n += 1
-        calls = [e for e in p.events if e.kind == "call" and ast.unparse(e.node.func if isinstance(e.node, ast.Call) else e.node) == "self.partial_gantt_chart_plotter"]
-        if len(calls) != 1 or not calls[0].node.args or ast.unparse(calls[0].node.args[0]) != "self.schedule":
+        calls = [
+            e for e in p.events
+            if e.kind == "call" and ctx.norm.xtext(pg, e.node.func if isinstance(e.node, ast.Call) else e.node) == "self.partial_gantt_chart_plotter"
+        ]
+        # the schedule read at call time: the creator's `schedule` property or the dispatcher's attribute it returns
+        live = ("self.schedule", "self.dispatcher.schedule")
+        if len(calls) != 1 or not calls[0].node.args or ctx.norm.xtext(pg, calls[0].node.args[0]) not in live:
             bad = True
             chk.violation(
                 "R20.d", pg, p.events[-1].node,
@@ -974,6 +1110,7 @@ def run(ctx):
             break
     if not bad and n:
         chk.ok("R20.d", pg.qualname, pg.loc(), f"{n} return paths plot self.schedule")
+    ctx.attempt(_history_read_live, ctx, gc)
     sch = gc.methods.get("schedule")
     if sch is not None and "dispatcher.schedule" not in ast.unparse(sch.node):
         chk.violation("R20.d", sch, None, "GanttChartCreator.schedule is not the dispatcher's live schedule")
